@@ -281,9 +281,13 @@ def run(chk):
                           "a request body that was not fully received can be left on a kept-alive connection: its bytes are parsed as the next request or stall the connection",
                           closes=[norm.fmt_cnf(PC.pc(c, stop=o)) for c in closes])
         else:
-            ifst = K.stmt_of(good).parent
-            while ifst is not None and not isinstance(ifst, ast.If):
-                ifst = ifst.parent
+            # the outermost `if` (below the unread-body test) that guards the close: merged or nested tests are the same thing
+            ifst = None
+            x = K.stmt_of(good).parent
+            while x is not None and x is not o:
+                if isinstance(x, ast.If):
+                    ifst = x
+                x = x.parent
             tests = [n for n in g.nodes if n.kind == "test" and n.ast is ifst.test]
             ot = [n for n in g.nodes if n.kind == "test" and n.ast is o.test]
             head = [n for n in g.nodes if n.kind == "test" and n.ast is loop.test]
